@@ -212,3 +212,30 @@ pub fn wshort_u16() {
     core::mem::forget(rs);
     kani::cover!(plan[0] == 0, "[cover] interruption on the first attempt reached");
 }
+
+/// a sink that is full rejects by returning `Ok(0)`: that is a write error, never success
+/// (added after seed C13-R10: a hand-written `write_all` loop whose `Ok(0)` arm breaks out
+/// and reports `Ok(())`)
+// @h wfull_u32 props=C13 tier=quick kind=complete vars="v:u32, capacity 0..=4 of a sink that returns Ok(0) when full" fns="ser/write.rs:impl WriteNoStd for W: Write"
+#[kani::proof]
+#[kani::unwind(8)]
+pub fn wfull_u32() {
+    let v: u32 = kani::any();
+    let cap: usize = kani::any();
+    kani::assume(cap <= 4);
+    let mut w = FullWriter::<8>::new(cap);
+    let rs = ser_root(&v, &mut w);
+    let b = v.to_ne_bytes();
+    if cap < 4 {
+        assert!(matches!(rs, Err(ser::Error::WriteError)), "[C13/full.err] a sink that stops accepting bytes yields a write error, never success");
+    } else {
+        assert!(rs.is_ok(), "[C13/full.ok] a sink with enough room accepts the value");
+    }
+    assert!(w.len <= 4 && w.len == if cap < 4 { cap } else { 4 }, "[C13/full.prefix.len] the sink holds what fitted");
+    let i = sym_index(4);
+    if i < w.len {
+        assert!(w.buf[i] == b[i], "[C13/full.prefix] the accepted bytes are a prefix of the fault-free bytes");
+    }
+    core::mem::forget(rs);
+    kani::cover!(cap == 2, "[cover] half-full sink reached");
+}
